@@ -1426,16 +1426,22 @@ pub struct ArrayAccess<'a, R> {
     /// the offset of the first element body. Used as the anchor for the
     /// `consumed > size` overrun check.
     start_pos: usize,
+    /// The element constructor of the array. A compound element (list, map, array)
+    /// clears `Deserializer::elem_format_code` while it is decoded, so it is put back
+    /// before every element.
+    elem_format_code: Option<EncodingCodes>,
 }
 
 impl<'a, 'de, R: Read<'de>> ArrayAccess<'a, R> {
     pub(crate) fn new(de: &'a mut Deserializer<R>, size: usize, count: usize) -> Self {
         let start_pos = de.reader.bytes_consumed();
+        let elem_format_code = de.elem_format_code.clone();
         Self {
             de,
             size,
             count,
             start_pos,
+            elem_format_code,
         }
     }
 }
@@ -1460,6 +1466,9 @@ impl<'de, R: Read<'de>> de::SeqAccess<'de> for ArrayAccess<'_, R> {
             }
             _ => {
                 self.count -= 1;
+                if self.elem_format_code.is_some() {
+                    self.de.elem_format_code = self.elem_format_code.clone();
+                }
                 let result = seed.deserialize(self.as_mut())?;
                 // Defense in depth: bound iteration by bytes consumed, not
                 // just by `count`. The pre-loop `count <= len` /
